@@ -119,11 +119,9 @@ def ofValTup : List Schema → List Val → Option (List Tree)
 def ofValVariant : List (List Nat × Schema) → List Nat → Val → Option Tree
   | [], _, _ => none
   | (n, p) :: rest, name, payload =>
-    if n == name then
-      match p with
-      | .absent => none
-      | p => (ofVal p payload).map (.nvar name)
-    else ofValVariant rest name payload
+    match n == name with
+    | true => (ofVal p payload).map (.nvar name)
+    | false => ofValVariant rest name payload
 end
 
 mutual
@@ -149,11 +147,9 @@ def conformsTup : List Schema → List Tree → Bool
 def conformsVariant : List (List Nat × Schema) → List Nat → Tree → Bool
   | [], _, _ => false
   | (n, p) :: rest, name, t =>
-    if n == name then
-      match p with
-      | .absent => false
-      | p => conforms p t
-    else conformsVariant rest name t
+    match n == name with
+    | true => conforms p t
+    | false => conformsVariant rest name t
 end
 
 /-! ## record header and records -/
